@@ -321,8 +321,11 @@ class Paraxial:
                 raise ValueError('Field type cannot be "object_height" for an '
                                  'object at infinity.')
 
-            y = -np.tan(np.radians(field_y)) * EPL
-            z = self.optic.surface_group.positions[1]
+            # launch from a plane in front of both the first surface and
+            # the entrance pupil, so that the aiming distance EPL - z never
+            # vanishes (it did when the stop is the first surface)
+            z = self.optic.surface_group.positions[1] - (1 + np.abs(EPL))
+            y = -np.tan(np.radians(field_y)) * (EPL - z)
 
             y0 = y1 + y
             z0 = np.ones_like(y1) * z
